@@ -211,6 +211,21 @@ def mixed_lookup_ops(r):
     return ops
 
 
+def frame_ops(r, budget=300):
+    """Directed (C06): a DataFrame far bigger than the budget, with rows that get lighter along the row order, among small
+    entries: it is never resident, whatever the size estimate samples, and does not disturb the accounts of the others"""
+    ops = []
+    small = max(20, (budget - 40) // 4)
+    for i in range(2):
+        ops.append({"op": "Memoize", "f": 1, "h": 1 + i, "value": {"t": "bytes", "size": small, "fill": i}, "ovr": 0})
+    ops.append({"op": "Memoize", "f": 2, "h": 1, "value": {"t": "frame", "rows": r.choice([130, 160, 220]), "fill": 1}, "ovr": 0})
+    ops += [{"op": "IsMemoized", "f": 2, "h": 1}, {"op": "ReadResult", "f": 2, "h": 1}, {"op": "GetMementos", "keys": [[2, 1], [1, 1]]},
+            {"op": "ReadResult", "f": 2, "h": 1}, {"op": "ReadResult", "f": 1, "h": 1}]
+    ops.append({"op": "Memoize", "f": 1, "h": 3, "value": {"t": "bytes", "size": small, "fill": 3}, "ovr": 0})
+    ops += [{"op": "Reopen"}, {"op": "ReadResult", "f": 2, "h": 1}, {"op": "ReadResult", "f": 1, "h": 2}, {"op": "IsMemoized", "f": 2, "h": 1}]
+    return ops
+
+
 def respell_ops(r):
     """the same bytes memoized by several calls through several backend objects (Reopen): they share one stored object"""
     ops = []
@@ -390,6 +405,8 @@ def run(prop, tier):
                 ops = forget_ops(r, c["budget"])
             elif prop == "C06" and i % 5 == 1 and c["budget"] >= 300:
                 ops = recency_ops(r, c["budget"])
+            elif prop == "C06" and i % 10 == 7:
+                ops = frame_ops(r, c["budget"])
             elif prop == "C05" and i % 7 == 4:
                 ops = meta_ops(r, ln, budget=c["budget"] or 300)
             elif prop == "C05" and i % 7 == 6 and c["kind"] == "fs":
